@@ -341,7 +341,7 @@ class kMinPathError(pathmodel.AbstractPathModelDAG):
             self.edge_indexes,
             name_prefix="gamma",
             lb=0,
-            ub=self.w_max,
+            ub=self.w_max * max([1] + list(self.path_length_factors)),
             var_type="continuous",
         )
 
@@ -438,7 +438,7 @@ class kMinPathError(pathmodel.AbstractPathModelDAG):
                         continuous_var=slack_var,
                         product_var=self.gamma_vars[(u, v, i)],
                         lb=0,
-                        ub=self.w_max,
+                        ub=self.w_max * max([1] + list(self.path_length_factors)),
                         name=f"12_u={u}_v={v}_i={i}",
                     )
 
@@ -486,7 +486,7 @@ class kMinPathError(pathmodel.AbstractPathModelDAG):
             self.edge_indexes,
             name_prefix="gamma",
             lb=0,
-            ub=self.w_max,
+            ub=self.w_max * max([1] + list(self.path_length_factors)),
             var_type="continuous",
         )
 
@@ -550,7 +550,7 @@ class kMinPathError(pathmodel.AbstractPathModelDAG):
                     continuous_var=slack_var,
                     product_var=self.gamma_vars[(u, v, i)],
                     lb=0,
-                    ub=self.w_max,
+                    ub=self.w_max * max([1] + list(self.path_length_factors)),
                     name=f"12_u={u}_v={v}_i={i}",
                 )
 
